@@ -38,12 +38,12 @@ func init() {
 		Rule:     "a case = thread programs (Push/Pop/Len/PopWait(-1)/PopWait(0) calls) + a schedule of atomic steps executed on the real sync_list.go under the deterministic scheduler; non-trivial = at least one context switch while the thread switched away from is inside a call; distinct by hash of programs+schedule",
 		Classify: classify,
 		Facts:    facts,
-		Extras:   []core.Extra{raceExtra},
+		Extras:   []core.Extra{raceExtra, timedExtra},
 		Parallel: false,
 		Assumptions: []string{
 			"sync/atomic operations are sequentially consistent and DRF-SC holds (Go memory model)",
 			"a freshly allocated node is private to its allocating goroutine until the link CAS publishes it",
-			"PopWait(d<0) (Pop in a Gosched loop) and PopWait(0) (one Pop) are modelled and scheduled; PopWait with a positive duration (time.Ticker, wall clock) is neither modelled nor scheduled, only run under the race detector",
+			"PopWait(d<0) (Pop in a Gosched loop) and PopWait(0) (one Pop) are modelled and scheduled; PopWait(d>0) is modelled with the timer as an input (ticks fire when the scheduler says, the deadline is observed on an environment-chosen tick) but NOT driven by the deterministic scheduler: its control skeleton is re-extracted on every run and its conservation clause is checked under the real clock (timing-independent verdict)",
 			"Go int / int64 treated as unbounded",
 		},
 		TrustedBase: []string{
